@@ -17,7 +17,7 @@ def handle (l : Line) : Verdict :=
     let other := xorAddr stored tid2
     let same := if other == a then "same" else "differs"
     exact s!"xor v{if a.v6 then 6 else 4} other-tid-{same}" l.obs
-      s!"ty={AttrFam.hex4 raw.ty} wire={toHex raw.value} back={render back} other={render other} viawire={render back} viamsg={render back}"
+      s!"ty={AttrFam.hex4 raw.ty} wire={toHex raw.value} back={render back} other={render other} viawire={render back} viamsg={render back} inplace={toHex raw.toBytes}"
   | _, _, _ => .bad "args" ""
 
 end Driver.XorFam
